@@ -181,7 +181,7 @@ func init() {
 	impliedProps["R45"] = append(impliedProps["R45"], "C01", "C08", "C09")
 	impliedProps["R46"] = append(impliedProps["R46"], "C01", "C03", "C04", "C08", "C09", "C11")
 	impliedProps["R17"] = append(impliedProps["R17"], "C14", "C08")
-	impliedProps["R26"] = append(impliedProps["R26"], "C14", "C17", "C18") // a leaf that aliases the caller's buffer does not keep its key as inserted
+	impliedProps["R26"] = append(impliedProps["R26"], "C14", "C17", "C18", "C03", "C04") // a leaf that aliases the caller's buffer does not keep its key as inserted
 	// an encoding that is not an order isomorphism with exact round trip merges or misorders the
 	// keys of every tree built on it
 	impliedProps["R15"] = append(impliedProps["R15"], "C01", "C02")
@@ -192,10 +192,11 @@ func init() {
 	impliedProps["R51"] = append(impliedProps["R51"], "C06", "C01", "C11", "C15")
 	impliedProps["R52"] = append(impliedProps["R52"], "C04", "C08")
 	impliedProps["R54"] = append(impliedProps["R54"], "C03", "C09")
+	impliedProps["R20"] = append(impliedProps["R20"], "C15", "C06") // the lane search of the 16-class matching beyond the fill count: Delete of an absent key removes a live child
 	impliedProps["R55"] = append(impliedProps["R55"], "C16", "C12", "C11", "C01", "C18", "C08")
 	// a stored key that aliases the caller's buffer changes under the tree: pairs vanish from
 	// lookups and iteration
-	impliedProps["R26"] = append(impliedProps["R26"], "C01", "C02")
+	impliedProps["R26"] = append(impliedProps["R26"], "C01", "C02", "C03", "C04")
 	// state that a query writes into the tree makes every later answer depend on the history
 	impliedProps["R25"] = append(impliedProps["R25"], "C04", "C14", "C02", "C03")
 	// a success without the full-key comparison removes or overwrites another key: the index no
